@@ -6,6 +6,7 @@ CONSTANTS
   BugNextArgNoSkip = FALSE
   BugUseFlagAll = FALSE
   BugOptionalOrigState = FALSE
+  BugNames = "none"
 VIEW View
 INVARIANTS ObsSuccessorOfOptionNameNotPositional
 CHECK_DEADLOCK FALSE
